@@ -83,6 +83,8 @@ class FortranPythonTransformation(Transformation):
         intrinsic_map = {
             'min': 'min', 'max': 'max', 'abs': 'abs',
             'exp': 'np.exp', 'sqrt': 'np.sqrt',
+            # np.fmod has the sign of the dividend, like Fortran's MOD (Python's % has not)
+            'mod': 'np.fmod',
         }
         replace_intrinsics(routine, function_map=intrinsic_map)
 
